@@ -8,11 +8,13 @@ package nas
 
 //@ func GetEPD(byteArray) (epd)
 //@   requires len(byteArray) >= 1
+//@   assigns nothing
 //@   ensures epd == byteArray[0]
 //@ end
 
 //@ func GetSecurityHeaderType(byteArray) (sht)
 //@   requires len(byteArray) >= 2
+//@   assigns nothing
 //@   ensures sht == byteArray[1]
 //@ end
 
